@@ -29,6 +29,7 @@ mod workload;
 mod c16;
 #[cfg(not(feature = "nostd"))]
 mod c12;
+mod c17;
 
 use framework::{run_batch, BatchArgs, Scenario};
 use serde_json::Value;
@@ -61,6 +62,13 @@ fn batch_with<S: Scenario>(s: &S, a: &BatchArgs) -> i32 {
     }
 }
 
+fn history_with<S: Scenario>(s: &S, seed: u64, index: u64) -> i32 {
+    let mut rng = prng::Rng::new(framework::run_seed_of(s, seed, index));
+    let h = s.generate(&mut rng, index);
+    println!("{}", serde_json::to_string(&s.to_json(&h)).unwrap());
+    0
+}
+
 fn replay_with<S: Scenario>(s: &S, file: &Value) -> i32 {
     match framework::replay(s, file) {
         Ok(v) => {
@@ -89,6 +97,10 @@ macro_rules! scenarios {
             #[cfg(feature = "alloc_world")]
             "c18" => {
                 let $s = c18::C18;
+                $body
+            }
+            "c17api" => {
+                let $s = c17::C17Api;
                 $body
             }
             "c11" => {
@@ -130,6 +142,9 @@ fn main() {
         harness_error("usage: sim batch <scenario> ... | sim replay <file>");
     }
     framework::install_quiet_panic_hook();
+    if args.iter().any(|a| a == "--small") {
+        data::SMALL.store(true, std::sync::atomic::Ordering::Relaxed);
+    }
     #[cfg(feature = "alloc_world")]
     if args.iter().any(|a| a == "--alloc-hard-fail") {
         c18::HARD_FAIL.store(true, std::sync::atomic::Ordering::Relaxed);
@@ -145,8 +160,16 @@ fn main() {
                 max_report: parse_u64(&arg_val(&args, "--max-report").unwrap_or_else(|| "3".into())) as usize,
                 shrink_budget: parse_u64(&arg_val(&args, "--shrink-budget").unwrap_or_else(|| "4000".into())) as usize,
                 progress_file: arg_val(&args, "--progress-file"),
+                trace_runs: args.iter().any(|a| a == "--trace-runs"),
             };
             scenarios!(name.as_str(), s => batch_with(&s, &a))
+        }
+        "history" => {
+            // prints the history of run (seed, index) without executing it (abort forensics)
+            let name = args.get(2).cloned().unwrap_or_default();
+            let seed = parse_u64(&arg_val(&args, "--seed").unwrap_or_else(|| "20260926".into()));
+            let index = parse_u64(&arg_val(&args, "--index").unwrap_or_else(|| "0".into()));
+            scenarios!(name.as_str(), s => history_with(&s, seed, index))
         }
         "replay" => {
             let path = args.get(2).cloned().unwrap_or_default();
